@@ -2,6 +2,15 @@
 """Regenerates MANIFEST.json from the table below (keeps it valid at all times)."""
 import json, sys
 CHECKS = {
+ "C12": dict(level="exploration", design="4/C12",
+   text="Exhaustive over placement chains of depth 1-3 (depth 4 in thorough) on the eight right-angle orientations x 5 offsets per level, every point of a 9x9 grid: Transform::from_instance / cascade / Point::transform must equal the exact integer composition reflect->rotate ccw->translate, and (depth 1) the cascade of the library's own elementary transforms; random chains with large offsets; random cell hierarchies through Layout::flatten compared as multisets with the model composition; general angles against real arithmetic within 0.5.",
+   note="Trusted base: integer orientation matrices in harness/src/refmodel/geom.rs.",
+   technique="exhaustive enumeration + property-based testing against an exact integer reference model; differential against the library's elementary transforms"),
+ "C13": dict(level="exploration", design="4/C13",
+   text="Exhaustive: all rectangles on a 6x6 grid x all surrounding points; all simple polygons with 3-4 vertices on a 5x5 grid (3-5 in thorough; 4x4 with 5 vertices in quick) incl. collinear/repeated vertices, both orientations, all start vertices, x every surrounding grid point. Random rectilinear (L/U/T histogram), 45-degree and star-shaped polygons queried over their bounding box and at every vertex height; Manhattan paths queried over their neighbourhood and judged by zone. Oracle: exact closed-region membership (integer cross products).",
+   note="Path end caps and the corner squares outside the joint disc are not asserted (statement ambiguous there).",
+   technique="exhaustive enumeration + property-based testing against an exact integer geometry kernel"),
+
  "C01": dict(level="exploration", design="4/C01",
    text="Seeded proptest search over constructed GDSII library values (all seven element kinds, every optional-field subset, empty/odd/non-ASCII strings, full-range coordinates, in-range reals, records straddling the 16-bit limit): write, read back, compare field for field; 1 in 16 through save/open on a file; hand-written boundary libraries as regression inputs.",
    note="Round-trip oracle (inverse); symmetric reader/writer errors are C02/C03's business. Strings without NUL; reals within the format's range.",
